@@ -1,11 +1,16 @@
-GO_PKG = "./records"
-GO_PKGNAME = "records"
-HARNESS = ["records/c07_test.go"]
-GO_TEST = "TestVerifC07"
+# two runs: the ProviderManager itself (package records), and the two handlers that feed and read it on a real
+# node (package dht): accepted inbound ADD_PROVIDERs must be returned by every later GET_PROVIDERS
+GO_RUNS = [
+    {"pkg": "./records", "pkgname": "records", "test": "TestVerifC07", "share": 0.8, "harness": ["records/c07_test.go"]},
+    {"pkg": ".", "pkgname": "dht", "test": "TestVerifC07H", "share": 0.2,
+     "harness": ["dht/sim_test.go", "dht/lookup_test.go", "dht/world_test.go", "dht/c07h_test.go"]},
+]
 RUN_MODULE = "Run_C07"
-COQ_TARGETS = ["Corr/Run_C07.vo", "Proofs/ProvidersProofs.vo", "Proofs/ProvidersCloseProofs.vo"]
-N = {"quick": 750, "thorough": 6250}
-RULE = ("four cases out of five: random histories (5-85 operations + a final restart and a query of every key) of AddProvider / GetProviders / "
+COQ_TARGETS = ["Corr/Run_C07.vo", "Corr/Run_C07H.vo", "Proofs/ProvidersProofs.vo", "Proofs/ProvidersCloseProofs.vo"]
+N = {"quick": 940, "thorough": 7800}
+RULE = ("handler run (a fifth of the cases): sequences of inbound ADD_PROVIDER (own / foreign entries, addresses public / private / loopback / "
+        "none, bad keys), addresses learned by the peerstore afterwards and GET_PROVIDERS through the real handlers of a node without or with a "
+        "public-only address filter; every query must return exactly the providers accepted so far. ProviderManager run: four cases out of five: random histories (5-85 operations + a final restart and a query of every key) of AddProvider / GetProviders / "
         "time.Sleep / restart / Close on the real ProviderManager in a synctest bubble, 1-12 keys (some are byte-prefixes "
         "of others) over a cache of 1-4 entries, 1-6 providers (one is the local peer), validity from a few ns to 48 h, "
         "sweep interval disabled / V/3 / V / 2V+3 / random, 60% of the sleeps aimed at an expiry instant -1/0/+1 ns, "
